@@ -104,7 +104,7 @@ def generate(rng, tier):
         kind = rng.choice(gen.KINDS_KEY)
         lspec.append((f"lp{j}", kind, gen.gen_values(rng, kind, nl, rng.choice(gen.NA_PATTERNS), "few", 0.2, tags)))
     for j in range(rng.randint(0, 3)):
-        kind = rng.choice(gen.KINDS_KEY + ["obj"])
+        kind = rng.choice(gen.KINDS_KEY + ["obj", "int32", "float32", "uint64", "timedelta"])
         name = f"rp{j}" if rng.random() < 0.9 else "lp0"
         if any(s[0] == name for s in rspec): continue
         rspec.append((name, kind, gen.gen_values(rng, kind, nr, rng.choice(gen.NA_PATTERNS), "few", 0.2, tags)))
